@@ -22,6 +22,9 @@ type Response struct {
 
 	RawResponse *fasthttp.Response
 	cookie      []*fasthttp.Cookie
+
+	// cookiesInJar: the request followed redirects and has stored the cookies of every hop in the jar already
+	cookiesInJar bool
 }
 
 // setClient sets the client instance in the response. The client object is used by core functionalities.
@@ -162,6 +165,7 @@ func (r *Response) Save(v any) error {
 func (r *Response) Reset() {
 	r.client = nil
 	r.request = nil
+	r.cookiesInJar = false
 
 	for len(r.cookie) != 0 {
 		t := r.cookie[0]
